@@ -11,7 +11,7 @@ import (
 
 type c06Case struct {
 	Layout  []int  `json:"layout"`   // indices into the layout item alphabet
-	UseForm int    `json:"use_form"` // 0: @use("lay")   1: @use("~lay") = layouts/lay
+	UseForm int    `json:"use_form"` // 0: @use("lay")   1: @use("~lay") = layouts/lay   2: a name with a tilde inside   3: @use("lay") written behind the inserts
 	InsA    int    `json:"ins_a"`    // 0 absent, 1.. forms
 	InsB    int    `json:"ins_b"`
 	BFirst  bool   `json:"b_first,omitempty"`
@@ -129,7 +129,7 @@ func c06Build(cs c06Case) c06Built {
 		}
 	}
 	lay := &TplFile{Nodes: lnodes}
-	page := &TplFile{Use: useName}
+	page := &TplFile{Use: useName, UseLast: cs.UseForm == 3}
 	ia, ib := c06Insert("a", cs.InsA), c06Insert("b", cs.InsB)
 	ins := []*Node{ia, ib}
 	if cs.BFirst {
@@ -364,6 +364,10 @@ func c06Run(c *Ctx) {
 		for ia := 0; ia < c06InsForms; ia++ {
 			for _, cfg := range []int{0, 1} {
 				if !do(c06Case{Layout: []int{0, 1, 7}, UseForm: 2, InsA: ia, InsB: (ia + 1) % c06InsForms, Data: 0, Cfg: cfg}) {
+					return
+				}
+				// @use written behind the inserts of the page
+				if !do(c06Case{Layout: []int{0, 1, 7}, UseForm: 3, InsA: ia, InsB: (ia + 2) % c06InsForms, Data: 0, Cfg: cfg, Junk: cfg == 1}) {
 					return
 				}
 			}
